@@ -7,7 +7,7 @@ V = os.path.dirname(os.path.dirname(os.path.abspath(__file__)))
 REASON = {
     'C16-type-order-ignores-case': 'needs two type names that differ only by case; the generated names are T0021-style and the definitions of an arrangement are compared as sets, not in the order of the type table',
     'C19-event-type-from-request-field': 'needs a subscription field inside a fragment on an interface that Query implements too, resolved on a reused executable between two events',
-    'C19-failed-consumed-in-one-pass': 'sequential histories cannot show it (an Unsubscribe must land between the two phases of a publish on which two subscribers failed); the C20 quick schedules do not hold that combination; the C20 thorough tier reports it (28 mismatching schedules)',
+    'C19-failed-consumed-in-one-pass': 'sequential histories cannot show it (an Unsubscribe must land between the two sections of a publish on which two subscribers failed): the C20 quick check holds that scenario, exhaustively interleaved, and reports it',
     'C20-cleanup-compares-subscriber': 'needs one Subscriber value behind several subscriptions; the harness gives every subscription its own subscriber',
     'C01-list-resolved-in-place': 'reported through the correspondence: the second traversal of the same Go slice differs from the model',
     'C15-oneline-block-desc': 'after fix 6a9361f the change no longer breaks the property; the correspondence (model printer = library, byte for byte) still reports it',
